@@ -106,3 +106,8 @@ package entrypoint
 //   C18 (ordering): a too long passthrough payload is refused before the wrapped application runs.
 //@   ensures[C18] hook_n > old(hook_n) && hook_failed ==> wrapped_n == old(wrapped_n) && !ackSuccess(ack)
 //@   ensures[C18] wrapped_n > old(wrapped_n) && forOrb(packet) && validIds(packet) ==> hook_n == old(hook_n) + 1 && !hook_failed
+
+// The middleware's constructor establishes what OnRecvPacket assumes of its receiver ([inv]): the wrapped
+// application and the payload adapter are present (it panics otherwise), and they are the ones it was given.
+//@ func NewIBCMiddleware(app, ics4Wrapper, payloadAdapter) (m)
+//@   ensures[C07] m.IBCModule != nil && m.payloadAdapter != nil && m.IBCModule == app && m.payloadAdapter == payloadAdapter
